@@ -12,6 +12,8 @@ import (
 	"fmt"
 	"io"
 	"net"
+	"os"
+	"syscall"
 	"testing"
 	"time"
 	"verif/harness/wire"
@@ -49,6 +51,7 @@ type c13 struct {
 	closes         int
 	readErr        error
 	writeErr       error
+	tempWriteErr   int
 	writeErrAt     int // connX.Writes when the write error was injected
 	writableAt     int64
 	err            error
@@ -69,6 +72,11 @@ const noDeadline = int64(-1) << 60
 
 var errInjectedRead = errors.New("injected socket read error")
 var errInjectedWrite = errors.New("injected socket write error")
+var errInjectedWrites = []error{
+	errInjectedWrite,
+	&net.OpError{Op: "write", Net: "udp", Err: os.ErrDeadlineExceeded},
+	&net.OpError{Op: "write", Net: "udp", Err: &os.SyscallError{Syscall: "sendto", Err: syscall.EAGAIN}},
+}
 
 func (m *c13) now() int64 { return m.s.Now() }
 
@@ -131,6 +139,9 @@ func (m *c13) validate(c *c13Call, deadline, setAt int64, sockErr error) {
 			}
 			m.windowWakes++
 		}
+	case sockErr != nil && errors.Is(err, sockErr):
+		// the socket's own error, which may itself be an "i/o timeout" (a send
+		// deadline on the socket): not the session's deadline
 	case isTimeout(err):
 		m.timeouts++
 		if deadline == noDeadline {
@@ -151,7 +162,6 @@ func (m *c13) validate(c *c13Call, deadline, setAt int64, sockErr error) {
 		if c.readableAfterClose {
 			m.failf("Read after Close failed with %v although data received before Close was still pending (Read must drain it first)", err)
 		}
-	case sockErr != nil && errors.Is(err, sockErr):
 	default:
 		m.failf("%s returned unexpected error %v", c.kind, err)
 	}
@@ -382,10 +392,16 @@ func (m *c13) socketError(t *rapid.T) {
 		if len(m.writers) > 0 {
 			m.errWhileBlocked++
 		}
-		m.writeErr = errInjectedWrite
+		// what a socket reports comes in kinds: a plain error, and errors that
+		// call themselves temporary (a send deadline on the socket, EAGAIN); the
+		// session reports them all, and a blocked Write returns with it
+		m.writeErr = errInjectedWrites[rapid.IntRange(0, len(errInjectedWrites)-1).Draw(t, "writeErrKind")]
 		m.writeErrAt = m.connX.Writes
-		m.connX.InjectWriteError(errInjectedWrite)
-		m.log("inject socket write error")
+		m.connX.InjectWriteError(m.writeErr)
+		if ne, ok := m.writeErr.(net.Error); ok && ne.Timeout() {
+			m.tempWriteErr++
+		}
+		m.log("inject socket write error: %v", m.writeErr)
 	}
 	m.s.Quiesce()
 }
@@ -539,6 +555,9 @@ func TestC13Session(t *testing.T) {
 		}
 		if m.errWhileBlocked > 0 {
 			cl = append(cl, "socket_error_while_blocked")
+		}
+		if m.tempWriteErr > 0 {
+			cl = append(cl, "socket_write_error_that_calls_itself_temporary")
 		}
 		if m.multiBlocked > 0 {
 			cl = append(cl, "several_callers_blocked")
